@@ -176,7 +176,7 @@ fn enumerate(args: &Args) -> Vec<VCase> {
     match args.property.as_str() {
         "C05" => {
             let tys = ["RSQVector256", "RSQVector512"];
-            for g in tiny_all(4, if th { 9 } else { 7 }) {
+            for g in tiny_all(4, if th { 9 } else { 8 }) {
                 for ty in tys {
                     // construction path rotates with the case for the tiny family; all three for the long ones
                     let p = (v.len() % 3) as u8;
@@ -217,7 +217,7 @@ fn enumerate(args: &Args) -> Vec<VCase> {
         }
         "C06" => {
             let tys = ["RSNarrow", "RSWide"];
-            for g in tinybits_all(if th { 16 } else { 12 }) {
+            for g in tinybits_all(if th { 17 } else { 14 }) {
                 for ty in tys {
                     let p = (v.len() % 2) as u8;
                     v.push(VCase::Bin { ty: ty.into(), gen: g.clone(), path: p, dense: 8193 });
@@ -243,7 +243,7 @@ fn enumerate(args: &Args) -> Vec<VCase> {
             }
         }
         "C07" => {
-            for g in tinybits_all(if th { 13 } else { 11 }) {
+            for g in tinybits_all(if th { 14 } else { 12 }) {
                 for sel0 in [false, true] {
                     v.push(VCase::DArr { sel0, gen: g.clone(), path: (v.len() % 3) as u8, dense: 8193 });
                 }
